@@ -4,6 +4,8 @@ mod c09;
 mod c12;
 mod c10;
 mod c11;
+mod c11gen;
+mod c11w;
 mod c24;
 mod mutate;
 
@@ -34,6 +36,9 @@ fn main() {
     }
     if id == "parse-one" {
         std::process::exit(c10::parse_one_main(&args[1]));
+    }
+    if id == "c11-worker" {
+        std::process::exit(c11w::worker_main());
     }
     if id == "fmt" {
         // debugging aid: vc-front fmt FILE [align] -> prints fmt(x) then fmt(fmt(x))
